@@ -791,9 +791,13 @@ Definition frag_proto (ul : list (Z * Z)) (consts : list value) (nregs : Z) : xp
   XProto (patch_moves (length ul) (map fst ul)) consts [] 0 0
          (VarArgHasArg + VarArgNeedsArg + VarArgIsVarArg) nregs (map snd ul) 0.
 
+Lemma vbind_assoc_at : forall A B C (m : VM A) (f : A -> VM B) (g : B -> VM C) s,
+  vbind (vbind m f) g s = vbind m (fun x => vbind (f x) g) s.
+Proof. intros. unfold vbind. destruct (m s); reflexivity. Qed.
+
 Lemma push_main : forall code consts nregs lines,
   let p := XProto code consts [] 0 0 7 nregs lines 0 in
-  exists s0, pushCallFrame (Some (FnLua 0%nat)) 0 1 0 0 MultRet (VFun 0%nat) false (init_vstate p) = VRet tt s0 /\
+  exists s0, (vdo _ <- pushCallFrame (Some (FnLua 0%nat)) 0 1 0 0 MultRet (VFun 0%nat) false; nccalls_add 1) (init_vstate p) = VRet tt s0 /\
     vstack s0 = [main_frame 0] /\ nth_error (vclos s0) 0 = Some (mkCl p [] 0%nat) /\ vuvcache s0 = [] /\
     th_parent (nth (vcur s0) (vthreads s0) dummy_th) = None /\ rtop (vreg s0) = 1 + nregs /\ vtrace s0 = [].
 Proof.
@@ -803,7 +807,7 @@ Qed.
 
 Lemma init_call : forall ul consts nregs, 0 <= nregs ->
   let p := frag_proto ul consts nregs in
-  exists s0, callR ml 0 MultRet (-1) (init_vstate p) = (vdo _ <- ml (Some 0%nat); vret tt) s0 /\ Rinv p [] 0 s0.
+  exists s0, callR ml 0 MultRet (-1) (init_vstate p) = (vdo _ <- ml (Some 0%nat); vdo _ <- nccalls_add (-1); vret tt) s0 /\ Rinv p [] 0 s0.
 Proof.
   intros ul consts nregs Hn p.
   destruct (push_main (patch_moves (length ul) (map fst ul)) consts nregs (map snd ul)) as [s0 [E [H1 [H2 [H3 [H4 [H5 H6]]]]]]].
@@ -814,7 +818,7 @@ Proof.
     bind_with (eq_refl : metaCall (VFun 0%nat) (init_vstate p) = VRet (Some (FnLua 0%nat), false) (init_vstate p)).
     cbn [fst snd].
     change (1 - 0 - 1) with 0. change (0 + 1) with 1. change (if -1 <? 0 then 0 else -1) with 0.
-    bind_with E.
+    rewrite <- vbind_assoc_at. bind_with E.
     unfold vget at 1. unfold vbind at 1. rewrite H1. reflexivity.
   - constructor; try assumption.
     + intros i Hi. unfold len in Hi. cbn [length] in Hi. lia.
@@ -862,7 +866,10 @@ Proof.
   unfold run_proto, PCall, Call. change (rtop (vreg (init_vstate p)) - 0 - 1) with 0.
   destruct (isem_code consts ul []) as [vs|ln| |]; try exact I.
   - destruct G' as [s' [Er [F1 [F2 [F3 F4]]]]].
-    rewrite Ec. unfold vbind at 1. rewrite Hml, Er. unfold vret.
+    rewrite Ec. unfold vbind at 1. rewrite Hml, Er. unfold nccalls_add, vmod. unfold vbind at 1. unfold vret.
+    set (s'' := set_nccalls (cur_nccalls s' + -1) s').
+    change (vreg s') with (vreg s'') in F2, F3. change (vtrace s') with (vtrace s'') in F4.
+    clearbody s''. clear s' Er F1. rename s'' into s'.
     assert (Eg : reg_get_range 0 (Z.to_nat (rtop (vreg (SetSp 0 s')))) (SetSp 0 s') = VRet vs (SetSp 0 s')).
     { change (vreg (SetSp 0 s')) with (vreg s'). rewrite F2. replace (Z.to_nat (len vs)) with (length vs) by (unfold len; lia).
       apply reg_get_range_window. exact F3. }
